@@ -1376,7 +1376,9 @@ class Cycles:
         self.subset_vect = get_subset_vector(valids)
         self.chain_vect = get_chain_vector(self.subset_vect)
 
-        vals = _cycles_support.project_chain_to_cycles(np.arange(self.chain_vect.max()+1),
+        # An empty selection has no chains
+        nchains = self.chain_vect.max() + 1 if len(self.chain_vect) > 0 else 0
+        vals = _cycles_support.project_chain_to_cycles(np.arange(nchains),
                                                        self.chain_vect, self.subset_vect)
         self.add_cycle_metric('chain_ind', vals, dtype=int)
 
